@@ -84,7 +84,11 @@ class NativesReplayer:
     def replay(self, ob):
         s = z3.Solver(); s.set('timeout', 60000); s.add(ob.hyps)
         if ob.kind == 'proof': s.add(z3.Not(ob.goal))
-        if s.check() != z3.sat:
+        import signal
+        signal.alarm(30)          # (replays run in a forked child: a solver call that ignores its timeout ends the child, not the check)
+        r0 = s.check()
+        signal.alarm(0)
+        if r0 != z3.sat:
             return {'violates': False, 'note': 'in-process solver did not produce a model'}
         m = s.model()
         try:
